@@ -157,13 +157,22 @@ func markOnce(c *Ctx, spec string) {
 				}
 				n++
 				guarded := false
+				further := ""
 				for _, ce := range dominatingConds(b) {
 					if bo, ok := ce.Cond.(*ssa.BinOp); ok && isNilConst(bo.Y) && canon(bo.X) == "*("+canon(fa)+")" {
 						if (bo.Op == token.EQL && ce.Val) || (bo.Op == token.NEQ && !ce.Val) {
 							guarded = true
+							continue
 						}
 					}
+					if in, isIn := ce.Cond.(ssa.Instruction); isIn {
+						further = canon(ce.Cond) + " at " + p.ipos(in)
+					} else {
+						further = canon(ce.Cond)
+					}
 				}
+				// ... and whenever it is not marked yet: no other test stands between the call and the stamp
+				c.Check(further == "", "MARK", fname, "an entry that is not marked yet is always marked", p.ipos(st), "the MarkedPast == nil test is the only condition the stamp depends on", "the stamp also depends on "+further+": a call of markPast can leave an unmarked entry unmarked (the callers, which mark every remaining entry of a vanished trip, rely on it)")
 				// value: address of a copy of the feed-time parameter
 				okVal := false
 				if a, isAlloc := st.Val.(*ssa.Alloc); isAlloc && tprm != nil {
@@ -2151,4 +2160,62 @@ func freshFieldSet(c *Ctx, prev ssa.Value, vanishLoop, feedLoop *Loop) bool {
 		}
 	}
 	return false
+}
+
+// runUIDSuffix: the journal keeps one entry per (start instant, trip id without its origin-time prefix). The prefix is
+// the first six characters of the id, whatever they are: in the function that builds the UID (the one whose result is
+// stored in Trip.TripUID) the id is cut at the constant 6 and nowhere else, and nothing searches the id for a
+// separator. Cutting elsewhere gives two trips that differ only before the cut one entry: the updates of one are
+// aligned against the stop list of the other.
+func runUIDSuffix(c *Ctx, rule string) {
+	p := c.P
+	tu := c.anchor("journal:(*Trip).update")
+	if tu == nil {
+		return
+	}
+	var uidFn *ssa.Function
+	for _, fs := range collectFieldStores(c.regionOf(tu), "journal.Trip") {
+		if fs.field == "TripUID" {
+			if call, ok := fs.store.Val.(*ssa.Call); ok {
+				uidFn = staticCallee(call)
+			}
+		}
+	}
+	if uidFn == nil || !p.isModuleFn(uidFn) {
+		return // reported by the UID obligation of the accounting rules
+	}
+	bad := ""
+	n := 0
+	for _, g := range c.regionOf(uidFn) {
+		if fnPkgPath(g) != fnPkgPath(uidFn) {
+			continue
+		}
+		for _, b := range g.Blocks {
+			for _, in := range b.Instrs {
+				switch x := in.(type) {
+				case *ssa.Slice:
+					if bt, ok := x.X.Type().Underlying().(*types.Basic); !ok || bt.Info()&types.IsString == 0 {
+						continue
+					}
+					n++
+					low, isK := int64(0), false
+					if x.Low != nil {
+						low, isK = constInt(x.Low)
+					}
+					if !isK || low != 6 || x.High != nil {
+						if bad == "" {
+							bad = "the id is cut by " + x.String() + " at " + p.ipos(x) + ", not at the constant 6"
+						}
+					}
+				case *ssa.Call:
+					if name := calleeName(x); strings.HasPrefix(name, "strings.") || strings.HasPrefix(name, "(*regexp.Regexp).") {
+						if bad == "" {
+							bad = "the id is searched with " + name + " at " + p.ipos(x)
+						}
+					}
+				}
+			}
+		}
+	}
+	c.Check(bad == "" && n > 0, rule, shortName(uidFn), "the UID drops the first six characters of the trip id and nothing else", p.pos(uidFn.Pos()), fmt.Sprintf("%d cut of the id, at the constant 6; no search for a separator", n), bad+": trip ids that differ only in the part that is now dropped share one journal entry (the updates of one trip are aligned against the stop list of the other)")
 }
